@@ -43,6 +43,8 @@ import (
 	"tunnox-core/internal/cloud/repos"
 	"tunnox-core/internal/cloud/services"
 	"tunnox-core/internal/command"
+	"tunnox-core/internal/core/idgen"
+	"tunnox-core/internal/core/storage"
 	coretypes "tunnox-core/internal/core/types"
 	"tunnox-core/internal/packet"
 	"tunnox-core/internal/protocol/session"
@@ -59,6 +61,12 @@ type CommandOptions struct {
 	// GenSubdomain that precedes any use of the caller's identity). It may block: that is how a driver plays
 	// a slow storage call and schedules concurrent commands.
 	DomainGate func(subdomain, baseDomain string)
+	// StorageFault, when set, is consulted before every storage read (Get) the command handlers' own
+	// repositories and port-mapping service make; a non-nil error is returned to the caller instead of
+	// the value (a transient backend read failure). The repositories and a PortMappingService of the
+	// server's own type are then built over a read-fault wrapper of the server's storage; everything
+	// else (session layer, cloud control) keeps reading the storage directly.
+	StorageFault func(key string) error
 }
 
 // Commands is the command side of a Server.
@@ -98,10 +106,19 @@ func (s *Server) EnableCommands(o CommandOptions) (*Commands, error) {
 	if o.EmptyOnly {
 		return c, nil
 	}
-	c.CodeRepo = repos.NewConnectionCodeRepository(s.Repo)
-	c.MappingRepo = repos.NewPortMappingRepo(s.Repo)
-	c.Domains = repos.NewHTTPDomainMappingRepository(s.Repo, c.BaseDomains)
-	c.ConnCodes = services.NewConnectionCodeService(c.CodeRepo, s.Cloud.GetPortMappingService(), c.MappingRepo, nil, s.Ctx)
+	repo, pms := s.Repo, s.Cloud.GetPortMappingService()
+	if o.StorageFault != nil {
+		full, ok := s.Storage.(storage.FullStorage)
+		if !ok {
+			return nil, fmt.Errorf("srvkit: storage %T cannot be wrapped for read faults", s.Storage)
+		}
+		repo = repos.NewRepository(&readFaultStorage{FullStorage: full, fault: o.StorageFault})
+		pms = services.NewPortMappingService(repos.NewPortMappingRepo(repo), idgen.NewIDManager(s.Storage, s.Ctx), nil, s.Ctx)
+	}
+	c.CodeRepo = repos.NewConnectionCodeRepository(repo)
+	c.MappingRepo = repos.NewPortMappingRepo(repo)
+	c.Domains = repos.NewHTTPDomainMappingRepository(repo, c.BaseDomains)
+	c.ConnCodes = services.NewConnectionCodeService(c.CodeRepo, pms, c.MappingRepo, nil, s.Ctx)
 
 	if err := server.NewConnectionCodeCommandHandlers(c.ConnCodes, s.SM).RegisterHandlers(c.Registry); err != nil {
 		return nil, err
@@ -130,6 +147,19 @@ func (s *Server) EnableCommands(o CommandOptions) (*Commands, error) {
 		}
 	}
 	return c, nil
+}
+
+// readFaultStorage is the server's storage with a fault point in front of Get.
+type readFaultStorage struct {
+	storage.FullStorage
+	fault func(key string) error
+}
+
+func (f *readFaultStorage) Get(key string) (interface{}, error) {
+	if err := f.fault(key); err != nil {
+		return nil, err
+	}
+	return f.FullStorage.Get(key)
 }
 
 // gatedDomainRepo is the real repository with a scheduling seam in front of the availability check.
